@@ -209,7 +209,22 @@ def one_case(ctx, rng, wd, force_N=None):
     klass = Dynamics if variant == "linear" else LogDynamics
     key = ("Dynamics" if variant == "linear" else "LogDynamics") + ".relaxation/" + mode + ("/cage" if lists else "") + ("/fast" if not slow else "") + ("/sel" if cond is not None else "")
     outfile = os.path.join(wd, "rel.csv") if rng.random() < 0.15 else ""
-    ok, res = ctx.call(key, lambda: klass(**kw).relaxation(qconst=qconst, condition=None if cond is None else cond.copy(), outputfile=outfile), data=info)
+    def cond_rep():
+        """the selection in the representation the caller holds it in (R7): fresh copy, Fortran order, strided view, read-only"""
+        if cond is None:
+            return None
+        r = (N + T) % 4
+        if r == 1 and cond.ndim == 2:
+            return np.asfortranarray(cond)
+        if r == 2:
+            big = np.zeros(cond.shape[:-1] + (2 * cond.shape[-1] + 1,), dtype=bool)
+            big[..., 1::2] = cond
+            return big[..., 1::2]
+        c = cond.copy()
+        if r == 3:
+            c.setflags(write=False)
+        return c
+    ok, res = ctx.call(key, lambda: klass(**kw).relaxation(qconst=qconst, condition=cond_rep(), outputfile=outfile), data=info)
     ctx.case(cls.rsplit("/sel", 1)[0], XU, ts, types, a, qconst, nontrivial=T >= 3 and N >= 4,
              sample={"class": cls, "T": T, "N": N, "d": d, "timesteps": ts, "dt": dt, "a": a, "qconst": qconst})
     if lists:
